@@ -97,6 +97,18 @@ def rule_r1(prog, res) -> None:
                     site = res.site(m, f"self.{x.attr}")
                     if verdict == "ok":
                         res.ok("C18.R1", site + " " + why, why)
+                    elif verdict == "label":
+                        cur = x
+                        while id(cur) in pm and not isinstance(cur, ast.stmt):
+                            cur = pm[id(cur)]
+                        res.violation(
+                            "C18.R1",
+                            m,
+                            cur,
+                            f"rows of self.{x.attr} are selected with {why}: the chunk [N-C, N) is a range of positions; on a data frame whose index is not 0..N-1 (filtered, concatenated, re-indexed) "
+                            "label slices deliver other rows, repeat rows or drop them",
+                            key_extra=f"{x.attr}-label-based",
+                        )
                     elif verdict == "bad":
                         cur = x
                         while id(cur) in pm and not isinstance(cur, ast.stmt):
@@ -125,6 +137,11 @@ def _classify_use(prog, f: FuncInfo, x: ast.AST, pm) -> tuple[str, str]:
                 if p.attr in BAD_METHODS:
                     return "bad", f".{p.attr}() materialises the source"
                 return "unknown", f"method .{p.attr}()"
+            if p.attr == "iloc":
+                cur = p  # positional indexer: classified by the slice that follows
+                continue
+            if p.attr in ("loc", "at"):
+                return "label", f".{p.attr}[] selects rows by index label, not by position"
             return "unknown", f"attribute .{p.attr}"
         if isinstance(p, ast.Subscript) and p.value is cur:
             sl = p.slice
@@ -153,7 +170,7 @@ def _classify_use(prog, f: FuncInfo, x: ast.AST, pm) -> tuple[str, str]:
                 if tg.funcs():
                     # in-repo helper: fine if it only asks for the length
                     ok = all(_only_len(t) for t in tg.funcs())
-                    return ("ok", f"passed to {fn}() which only takes len()") if ok else ("unknown", f"passed to {fn}()")
+                    return ("ok", f"passed to {fn}() which only takes len()") if ok else ("bad", f"passed to {fn}(), which does more with it than take its len() (the whole column may be read into memory)")
                 return "unknown", f"passed to {fn}()"
             return "unknown", "call"
         if isinstance(p, (ast.List, ast.Tuple, ast.ListComp, ast.GeneratorExp, ast.comprehension)):
@@ -188,10 +205,36 @@ def _classify_local(prog, f, name, pm):
 
 
 def _only_len(t: FuncInfo) -> bool:
+    """the helper touches the handles it is given (its parameters and the loop variables that run over them)
+    only through len(): anything else (subscripts, numpy conversions, iteration of an element) may read the data"""
     params = set(t.param_names())
+    elems = set(params)
+    changed = True
+    while changed:
+        changed = False
+        for x in walk_no_nested(t.node):
+            if isinstance(x, (ast.For, ast.comprehension)) and any(isinstance(y, ast.Name) and y.id in elems for y in ast.walk(x.iter)):
+                for y in ast.walk(x.target):
+                    if isinstance(y, ast.Name) and y.id not in elems:
+                        elems.add(y.id)
+                        changed = True
+            if isinstance(x, ast.Assign) and isinstance(x.value, ast.Call) and (dotted(x.value.func) or "") in ("next", "iter") and x.value.args and isinstance(x.value.args[0], ast.Name) and x.value.args[0].id in elems:
+                for y in x.targets:
+                    if isinstance(y, ast.Name) and y.id not in elems:
+                        elems.add(y.id)
+                        changed = True
+    pm = parents_map(t.node)
     for x in walk_no_nested(t.node):
-        if isinstance(x, ast.Subscript) and isinstance(x.value, ast.Name) and x.value.id in params:
-            return False
+        if not (isinstance(x, ast.Name) and x.id in elems and isinstance(x.ctx, ast.Load)):
+            continue
+        p = pm.get(id(x))
+        if isinstance(p, ast.Call) and isinstance(p.func, ast.Name) and p.func.id in ("len", "iter", "next") and x in p.args:
+            continue
+        if isinstance(p, (ast.For, ast.comprehension)) and p.iter is x:
+            continue
+        if isinstance(p, ast.Compare) and all(isinstance(o, (ast.Is, ast.IsNot)) for o in p.ops):
+            continue
+        return False
     return any(isinstance(x, ast.Call) and isinstance(x.func, ast.Name) and x.func.id == "len" for x in walk_no_nested(t.node))
 
 
